@@ -43,9 +43,23 @@ func VerifC03() {
 	}
 	var rows []string
 	mMarkdownRows(root, 0, &rows)
-	op := verifChoose("op", 0, 3)
+	op := verifChoose("op", 0, 4)
 	verifContext("C03.pair")
 	switch op {
+	case 4: // a writer that refuses write number j: both families report it (or both finish), text and encodings
+		j := int(verifChoose("failAt", 0, uint(len(nodes))))
+		var opts []Option
+		if k := int(verifChoose("enc", 0, 3)); k > 0 {
+			opts = append(opts, encOption(k))
+		}
+		w1, w2, w3 := newVerifWriter(), newVerifWriter(), newVerifWriter()
+		w1.failAt, w2.failAt, w3.failAt = j, j, j
+		e1 := OutputFromRoot(w1, root.real, opts...)
+		e2 := OutputFromMarkdown(w2, &verifReader{lines: rows}, opts...)
+		e3 := OutputProgrammably(w3, root.real, opts...)
+		verifAssert(w1.failed == w2.failed && w1.failed == w3.failed, "C03.fail.samewrites")
+		verifAssert((e1 != nil) == (e2 != nil) && (e3 != nil) == (e2 != nil), "C03.fail.err")
+		verifAssert(w1.out == w2.out && w3.out == w2.out, "C03.fail.out")
 	case 0: // text, opaque branch strings
 		ld, li, md, mi := verifStr("ld"), verifStr("li"), verifStr("md"), verifStr("mi")
 		o1, o2 := WithBranchFormatLastNode(ld, li), WithBranchFormatIntermedialNode(md, mi)
